@@ -199,6 +199,10 @@ def run(tier):
             parselib.run_space(out, '%s<=%d' % (blocks, n), blocks, n, sig_or_excluded, extra=extra, limit=limit)
     finally:
         parselib._JOB.pop('render_kw', None)
+    # option comments of the standard module: placements of Directive.tla (behind the statement, on a continuation line, behind an
+    # empty source line of the statement), the standard module as the judge
+    from . import dirlib
+    dirlib.std_phase(out, tier)
     out.exhaustive = not out.extra.get('replay_sampled', False)
     out.assumptions = ['the standard module decides which texts count (anything it rejects is discarded)',
                        'option directives: SKIP, ELLIPSIS, NORMALIZE_WHITESPACE (and ELLIPSIS on an exception message)',
